@@ -438,6 +438,18 @@ fn main() {
         let nslots = rng.range(5, if sh.name == "prune" { 22 } else { 17 });
         let mut blocks: BTreeMap<u64, Vec<(u64, u64, u64)>> = BTreeMap::new();
         let mut plan = gen_plan(&mut rng, sh, nslots, &mut blocks);
+        // blockstore events carry whatever slot the leader of that slot signed: a few cases mix in events for
+        // far-away slots, up to the last leader window (defect D33: window arithmetic overflowed there)
+        if case_no % 5 == 2 && !plan.evs.is_empty() {
+            const FAR: [u64; 8] = [u64::MAX, u64::MAX - 1, u64::MAX - 3, u64::MAX - 4, u64::MAX - 7, 1 << 63, (1 << 32) + 1, 72_001];
+            for _ in 0..rng.range(1, 4) {
+                let f = FAR[rng.below(FAR.len() as u64) as usize];
+                let key = plan.evs[rng.below(plan.evs.len() as u64) as usize].0;
+                let ev = match rng.below(3) { 0 => Ev::Fs(f), 1 => Ev::Ib(f), _ => Ev::Blk(f, 900 + rng.below(3), f - 1 - rng.below(2), 899) };
+                plan.add(key, ev);
+                rec.count("far-slot-event");
+            }
+        }
         rec.begin_case(sh.name);
         let mut class = 0u64;
 
